@@ -103,6 +103,24 @@ class SchedWorld(JobWorld, BuildWorld):
         tid = [k for k, r in self.files.items() if tuple(r['name']) == tuple(tname)]
         if not tid:
             return
+        if isinstance(src, tuple) and src[0] in ('always', 'ifcreate'):
+            # `redo-always` / `redo-ifcreate F` in the script: what always::run / ifcreate::run commit (decided by C14's own obligations)
+            if src[0] == 'always':
+                nm, mode = b'//ALWAYS', b'm'
+            else:
+                nm, mode = src[1], b'c'
+            sid = [k for k, r in self.files.items() if tuple(r['name']) == tuple(nm)]
+            if not sid:
+                sid = [self.next_rowid]
+                self.next_rowid += 1
+                self.add_file(sid[0], nm, is_generated=False, is_override=False)
+            if src[0] == 'always':
+                self.files[sid[0]].update(stamp=tuple(b'0'), changed_runid=self.runid)
+            self.deps[(tid[0], sid[0])] = {'mode': tuple(mode), 'delete_me': 0}
+            self.ev('script-declares', target=bytes(tname).decode(), source=bytes(nm).decode(), mode=mode.decode())
+            if self.db_committed is not None and not self.in_tx:
+                self.db_committed = self.snap_db()
+            return
         sid = [k for k, r in self.files.items() if tuple(r['name']) == tuple(src)]
         if not sid:
             sid = [self.next_rowid]
